@@ -501,4 +501,9 @@ func writeEvidence(prop, tier string, seed int64, ci *CheckInfo, r Result, nviol
 	bz, _ := json.MarshalIndent(ev, "", " ")
 	os.MkdirAll(Root()+"/evidence", 0o755)
 	os.WriteFile(filepath.Join(Root()+"/evidence", prop+".json"), bz, 0o644)
+	if tier == "thorough" {
+		// the latest thorough run is kept beside the per-change (quick) evidence, which the next quick run overwrites
+		os.MkdirAll(Root()+"/evidence/thorough", 0o755)
+		os.WriteFile(filepath.Join(Root()+"/evidence/thorough", prop+".json"), bz, 0o644)
+	}
 }
